@@ -939,3 +939,143 @@ def check_mcp_result(msg, gen, expect_id):
         probs.append('isError=%r but ok=%r' % (res.get('isError'), sc.get('ok')))
     probs += check_envelope(sc, None, '', expect_id, gen=gen, mcp=True)
     return probs
+
+# --------------------------------------------------------------------------- failure-class worlds (C10)
+
+UNPRIV = ['setpriv', '--reuid=65534', '--regid=65534', '--clear-groups']
+
+def _chown_tree(root, uid=65534, gid=65534):
+    for dp, dns, fns in os.walk(root):
+        os.lchown(dp, uid, gid)
+        for n in fns:
+            os.lchown(os.path.join(dp, n), uid, gid)
+
+def _chmod_dirs(root, mode):
+    for dp, dns, fns in os.walk(root, topdown=False):
+        os.chmod(dp, mode)
+
+FAILURE_KINDS = ['cfg_invalid_yaml', 'cfg_no_default_profile', 'cfg_dup_module', 'cfg_unsupported_version', 'cfg_unknown_target',
+                 'cfg_cursor_user_scope', 'lock_invalid', 'lock_unsupported', 'conflict', 'skill_bad_frontmatter', 'module_source_missing',
+                 'overlay_baseline_missing', 'overlay_conflict', 'overlay_patch_fail', 'overlay_mixed',
+                 'ro_target', 'ro_repo', 'ro_state', 'target_is_file', 'policy_violation', 'policy_cfg_invalid', 'policy_cfg_unsupported',
+                 'policy_pack_missing', 'git_detached', 'no_remote', 'no_git_binary', 'snapshot_corrupt', 'events_garbage']
+
+def build_failure_world(kind, tag='f'):
+    """A world in which a given failure class is provoked.  Built on the 'deployed' / 'pending' world."""
+    base = 'pending' if kind.startswith('overlay_') or kind in ('git_detached', 'no_remote', 'no_git_binary', 'ro_target', 'ro_repo', 'ro_state', 'target_is_file') else 'deployed'
+    w = build_world(base, tag + '-' + kind)
+    sb = w.sb
+    w.kind = kind; w.extra_env = {}; w.unpriv = False
+    cfgp = os.path.join(sb.repo, 'agentpack.yaml')
+    man = json.load(open(cfgp))
+    try:
+        if kind == 'cfg_invalid_yaml':
+            W.write(cfgp, 'version: [broken\n')
+        elif kind == 'cfg_no_default_profile':
+            man['profiles'] = {'other': {'include_tags': ['base']}}; W.write_config(sb.repo, man)
+        elif kind == 'cfg_dup_module':
+            man['modules'].append(dict(man['modules'][0])); W.write_config(sb.repo, man)
+        elif kind == 'cfg_unsupported_version':
+            man['version'] = 2; W.write_config(sb.repo, man)
+        elif kind == 'cfg_unknown_target':
+            man['targets']['foo'] = {'mode': 'files', 'scope': 'user', 'options': {}}; W.write_config(sb.repo, man)
+        elif kind == 'cfg_cursor_user_scope':
+            man['targets']['cursor'] = {'mode': 'files', 'scope': 'user', 'options': {}}; W.write_config(sb.repo, man)
+        elif kind == 'lock_invalid':
+            W.write(os.path.join(sb.repo, 'agentpack.lock.json'), '{not json')
+        elif kind == 'lock_unsupported':
+            lp = os.path.join(sb.repo, 'agentpack.lock.json'); d = json.load(open(lp)); d['version'] = 99
+            W.write(lp, json.dumps(d, indent=1))
+        elif kind == 'conflict':
+            W.write(os.path.join(sb.repo, 'modules/other-commands/hello.md'),
+                    open(os.path.join(sb.repo, 'modules/claude-commands/hello.md')).read() + '\nconflicting line\n')
+            man['modules'].append({'id': 'command:hello2', 'type': 'command', 'tags': ['base'], 'targets': ['claude_code'],
+                                   'source': {'local_path': {'path': 'modules/other-commands/hello.md'}}})
+            W.write_config(sb.repo, man)
+        elif kind == 'skill_bad_frontmatter':
+            W.write(os.path.join(sb.repo, 'modules/skills/helper/SKILL.md'), '# no frontmatter\n')
+        elif kind == 'module_source_missing':
+            shutil.rmtree(os.path.join(sb.repo, 'modules/skills/helper'))
+        elif kind == 'overlay_baseline_missing':
+            os.remove(os.path.join(w.info['overlay_dir'], '.agentpack', 'baseline.json'))
+        elif kind == 'overlay_conflict':
+            # ours and theirs both rewrite the first line
+            up = os.path.join(sb.repo, 'modules/instructions/base/AGENTS.md')
+            lines = open(up).read().split('\n')
+            ov = os.path.join(w.info['overlay_dir'], 'AGENTS.md')
+            olines = open(ov).read().split('\n')
+            # find a line present in both: rewrite it differently on both sides
+            common = [l for l in olines if l in lines and l.strip()]
+            tgt = common[0]
+            W.write(up, '\n'.join([('THEIRS ' + l) if l == tgt else l for l in lines]))
+            W.write(ov, '\n'.join([('OURS ' + l) if l == tgt else l for l in olines]))
+            _commit_all(sb, 'conflict')
+        elif kind in ('overlay_patch_fail', 'overlay_mixed'):
+            key = os.path.basename(w.info['overlay_dir'])
+            od = os.path.join(sb.repo, 'overlays', 'skill_helper--x')   # name resolved below through the CLI
+            rc, doc, out, err = w.cli(['overlay', 'edit', 'skill:helper', '--kind', 'patch'], yes=True)
+            if rc != 0:
+                raise InfraError('overlay edit --kind patch failed: ' + out[:300])
+            od = doc['data']['overlay_dir']
+            W.write(os.path.join(od, '.agentpack', 'patches', 'notes.txt.patch'),
+                    '--- a/notes.txt\n+++ b/notes.txt\n@@ -1 +1 @@\n-DOES NOT MATCH\n+patched\n')
+            if kind == 'overlay_mixed':
+                W.write(os.path.join(od, 'notes.txt'), 'dir override too\n')
+            _commit_all(sb, 'patch overlay')
+        elif kind in ('ro_target', 'ro_repo', 'ro_state'):
+            _chown_tree(sb.root)
+            os.chmod(sb.root, 0o755)
+            w.unpriv = True
+            if kind == 'ro_target':
+                for d in (os.path.join(sb.home, '.codex'), os.path.join(sb.home, '.claude'), os.path.join(sb.project, '.codex'), os.path.join(sb.project, '.claude')):
+                    if os.path.isdir(d): _chmod_dirs(d, 0o555)
+            elif kind == 'ro_repo':
+                _chmod_dirs(sb.repo, 0o555)
+            else:
+                _chmod_dirs(os.path.join(sb.aphome, 'state'), 0o555)
+                os.makedirs(os.path.join(sb.aphome, 'cache'), exist_ok=True)
+                os.lchown(os.path.join(sb.aphome, 'cache'), 65534, 65534)
+        elif kind == 'target_is_file':
+            shutil.rmtree(os.path.join(sb.home, '.codex'))
+            W.write(os.path.join(sb.home, '.codex'), 'i am a file\n')
+        elif kind == 'policy_violation':
+            W.write(os.path.join(sb.repo, '.claude/commands/ap-bad.md'), '---\ndescription: "bad command"\n---\n\n!bash\nagentpack deploy --apply --json\n')
+            W.write(os.path.join(sb.repo, '.codex/skills/bad/SKILL.md'), '# no frontmatter\n')
+        elif kind == 'policy_cfg_invalid':
+            W.write(os.path.join(sb.repo, 'agentpack.org.yaml'), 'version: 1\npolicy_pack:\n  source: ""\n')
+        elif kind == 'policy_cfg_unsupported':
+            W.write(os.path.join(sb.repo, 'agentpack.org.yaml'), 'version: 2\npolicy_pack:\n  source: "local:policies/p"\n')
+        elif kind == 'policy_pack_missing':
+            W.write(os.path.join(sb.repo, 'agentpack.org.yaml'), 'version: 1\npolicy_pack:\n  source: "local:policies/does-not-exist"\n')
+        elif kind == 'git_detached':
+            head = _git(sb.repo, 'rev-parse', 'HEAD', env=sb.env()).strip()
+            _git(sb.repo, 'checkout', '-q', '--detach', head, env=sb.env())
+        elif kind == 'no_remote':
+            _git(sb.repo, 'remote', 'remove', 'origin', env=sb.env())
+        elif kind == 'no_git_binary':
+            nogit = os.path.join(sb.root, 'bin-nogit'); os.makedirs(nogit)
+            w.extra_env = {'PATH': nogit}
+        elif kind == 'snapshot_corrupt':
+            for sid in w.info['snapshots'][:1]:
+                W.write(os.path.join(sb.aphome, 'state', 'snapshots', sid + '.json'), '{"garbage": tru')
+        elif kind == 'events_garbage':
+            W.write(os.path.join(sb.aphome, 'state', 'logs', 'events.jsonl'), '{"schema_version":1,\nnot json at all\n\xff\xfe\n'.encode('latin-1'))
+        else:
+            raise InfraError('unknown failure kind ' + kind)
+    except Exception:
+        w.close(); raise
+    w._freeze()
+    return w
+
+def world_cli(w, argv, stdin=None):
+    """run the binary in a (possibly unprivileged / restricted-PATH) world; argv includes --json etc."""
+    env = w.sb.env({'EDITOR': ''})
+    env.update(getattr(w, 'extra_env', {}) or {})
+    cmd = ([] if not getattr(w, 'unpriv', False) else list(UNPRIV)) + [AGENTPACK_BIN] + list(argv)
+    p = subprocess.run(cmd, cwd=w.sb.project, env=env, input=stdin, stdout=subprocess.PIPE, stderr=subprocess.PIPE, timeout=120)
+    out = p.stdout.decode('utf-8', 'replace')
+    try:
+        doc = json.loads(out)
+    except Exception:
+        doc = None
+    return p.returncode, doc, out, p.stderr.decode('utf-8', 'replace')
